@@ -12,7 +12,7 @@ import impl
 RULE = ("three generator classes x random circuits (1-6 components, 1-4 ports): `unitary` = exact rational Cayley "
         "unitaries with every free pin exposed, `passive` = dyadic contractions with random partial exposure, "
         "`symmetric` = S = S^T; `unitary-sweep` = lossless circuits with tunable mirrors (reflectivity t, non-reciprocal phase g, "
-        "reciprocal exactly at g = 0) solved point by point on one solver and then swept; resonant (ill-conditioned) lossless circuits are skipped and counted; "
+        "reciprocal exactly at g = 0) solved point by point on one solver and then swept; `hier-edit` = two-level lossless hierarchies solved, the placed sub-solver edited in place, the same parent solved again; resonant (ill-conditioned) lossless circuits are skipped and counted; "
         "distinct = distinct circuit; non-trivial = at least two components and one link")
 TRUSTED = ["numpy SVD / matrix products used by the oracle", "numpy global reference solve (conditioning filter only)"]
 ASSUMPTIONS = ["every inner system met by the elimination loop is invertible",
@@ -170,12 +170,137 @@ def check_sweep(ctx, circ, mirrors, ts, gs=None):
     return True
 
 
+def hier_edit_case(ctx, rng, i):
+    """lossless parts in a two-level hierarchy, every free pin exposed at both levels; the parent is solved, the placed
+    sub-solver is edited in place (a lossless two-port is put in front of one of its exposed pins, or two exposed names
+    are swapped) and the *same* parent is solved again: both results must be unitary"""
+    L = impl.lk()
+    nin, nout = rng.randint(1, 3), rng.randint(1, 2)
+    mats, pins = [], []
+    for c in range(nin + nout + 1):
+        n = rng.randint(2, 3)
+        mats.append(gen.rational_unitary(rng, n))
+        pins.append([f"a{k}" for k in range(n)])
+    extra = gen.rational_unitary(rng, 2)
+    rep = {"class": "hier-edit", "nin": nin, "nout": nout, "mats": [gen.mat_json(m) for m in mats], "extra": gen.mat_json(extra),
+           "seed": rng.randrange(2 ** 31)}
+    ctx.case(rep, nontrivial=True, tags=["class:hier-edit"])
+    return run_hier_edit(ctx, rep)
+
+
+def run_hier_edit(ctx, rep):
+    import random
+    L = impl.lk()
+    r = random.Random(rep["seed"])
+    nin, nout = rep["nin"], rep["nout"]
+    sizes = []
+    mats = []
+    for flat in rep["mats"]:
+        n = int(round(len(flat) ** 0.5))
+        mats.append(gen.json_mat_np(flat, n, n))
+        sizes.append(n)
+    extra = gen.json_mat_np(rep["extra"], 2, 2)
+    mk = lambda c: L.Structure(model=L.Model(pin_dic={L.Pin(f"a{k}"): k for k in range(sizes[c])}, Smatrix=mats[c].copy()))
+
+    def chain_and_expose(sol, sts, prefix):
+        free = [(st, f"a{k}") for c, st in sts for k in range(sizes[c])]
+        r.shuffle(free)
+        used = set()
+        # a few links between different structures
+        for _ in range(r.randint(0, max(0, len(sts) - 1)) + (1 if len(sts) > 1 else 0)):
+            cand = [(x, y) for x in free for y in free if x[0] is not y[0] and id(x[0]) < id(y[0]) and (id(x[0]), x[1]) not in used and (id(y[0]), y[1]) not in used]
+            if not cand:
+                break
+            x, y = r.choice(cand)
+            sol.connect(x[0], x[1], y[0], y[1])
+            used.add((id(x[0]), x[1]))
+            used.add((id(y[0]), y[1]))
+        k = 0
+        names = []
+        for (st, p) in free:
+            if (id(st), p) not in used:
+                sol.map_pins({L.Pin(f"{prefix}{k}"): (st, L.Pin(p))})
+                names.append(f"{prefix}{k}")
+                k += 1
+        return names
+    try:
+        child = L.Solver(name="child")
+        csts = [(c, mk(c)) for c in range(nin)]
+        for _, st in csts:
+            child.add_structure(st)
+        cnames = chain_and_expose(child, csts, "c")
+        parent = L.Solver(name="parent")
+        cst = L.Structure(solver=child)
+        parent.add_structure(cst)
+        osts = [(c, mk(c)) for c in range(nin, nin + nout)]
+        for _, st in osts:
+            parent.add_structure(st)
+        # link some child pins to the other parts
+        ofree = [(st, f"a{k}") for c, st in osts for k in range(sizes[c])]
+        r.shuffle(ofree)
+        linked = set()
+        for nm in cnames:
+            if ofree and r.random() < 0.5:
+                st, p = ofree.pop()
+                parent.connect(cst, nm, st, p)
+                linked.add(nm)
+        k = 0
+        for nm in cnames:
+            if nm not in linked:
+                parent.map_pins({L.Pin(f"P{k}"): (cst, L.Pin(nm))})
+                k += 1
+        for (st, p) in ofree:
+            parent.map_pins({L.Pin(f"P{k}"): (st, L.Pin(p))})
+            k += 1
+
+        def unit_defect(mod):
+            T = np.array(mod.S)[0]
+            n = T.shape[0]
+            return float(np.max(np.abs(T.conj().T @ T - np.eye(n)))) if n else 0.0
+        d1 = unit_defect(parent.solve())
+        # in-place edit of the placed sub-solver
+        kind = r.choice(["prepend", "swap"]) if len(cnames) >= 2 else "prepend"
+        if kind == "prepend" and cnames:
+            nm = r.choice(cnames)
+            tgt = child.pin_mapping[L.Pin(nm)]
+            st = L.Structure(model=L.Model(pin_dic={L.Pin("x"): 0, L.Pin("y"): 1}, Smatrix=extra.copy()))
+            child.add_structure(st)
+            child.pin_mapping.pop(L.Pin(nm))
+            child.connect(st, "y", tgt[0], tgt[1])
+            child.map_pins({L.Pin(nm): (st, L.Pin("x"))})
+        elif kind == "swap":
+            x, y = r.sample(cnames, 2)
+            tx, ty = child.pin_mapping[L.Pin(x)], child.pin_mapping[L.Pin(y)]
+            child.pin_mapping[L.Pin(x)], child.pin_mapping[L.Pin(y)] = ty, tx
+        d2 = unit_defect(parent.solve())
+        d3 = unit_defect(parent.solve())
+    except Exception as e:  # noqa
+        if impl.outcome_class(e) == "singular":
+            ctx.tag("outcome:singular-raised")
+            return True
+        ctx.violation(f"C08:hier-edit-raised-{type(e).__name__}", f"lossless hierarchy, edit and re-solve raised {type(e).__name__}: {str(e)[:70]}", rep)
+        return False
+    for label, d in (("first solve", d1), ("after editing the placed sub-solver in place", d2), ("solved once more", d3)):
+        if not (d <= 1e-7):
+            if d > 1e3 or not np.isfinite(d):
+                ctx.tag("skipped:resonant-hierarchy")
+                return True
+            ctx.violation("C08:not-unitary-hierarchy", f"hierarchy of lossless parts, every free pin exposed, {label}: |S^H S - 1| = {d:.3e}", rep)
+            return False
+    return True
+
+
 def run(ctx):
     rng = ctx.subrng("c08")
     n = ctx.budget(100, 1500)
     nmax = 6 if ctx.tier == "quick" else 9
     for cls in ("unitary", "passive", "symmetric"):
         run_class(ctx, rng, cls, n, nmax)
+    hrng = ctx.subrng("c08-hier")
+    for i in range(ctx.budget(80, 800)):
+        if ctx.time_left() < 0:
+            break
+        hier_edit_case(ctx, hrng, i)
     for i in range(ctx.budget(80, 1000)):
         if ctx.time_left() < 0:
             break
@@ -190,6 +315,11 @@ def run(ctx):
 
 
 def replay(ctx, data):
+    if data.get("class") == "hier-edit":
+        run_hier_edit(ctx, data)
+        if ctx.violations:
+            return False, ctx.violations[0]["what"]
+        return True, "lossless hierarchy stays unitary across an in-place edit"
     circ = gen.circuit_from_json(data["circuit"])
     if data["class"] == "unitary-sweep":
         from fractions import Fraction as F
